@@ -64,7 +64,7 @@ func (c *Ctx) ruleDisabled(rule string) {
 	// check, an accepting return is reached with Disabled false (flag test or the enabledness helper), or only where
 	// the producer's property was found not required.
 	for _, fn := range methods {
-		if fn.Name() != "ValidateCompatibility" {
+		if compatName(fn.Name()) != "ValidateCompatibility" {
 			continue
 		}
 		ei := core.ErrorResultIndex(fn.Signature)
@@ -119,15 +119,17 @@ func forwardsDataToTypeValue(fn *ssa.Function) bool {
 	for _, b := range fn.Blocks {
 		for _, in := range b.Instrs {
 			call, ok := in.(*ssa.Call)
-			if !ok || !call.Call.IsInvoke() {
+			if !ok {
 				continue
 			}
-			switch call.Call.Method.Name() {
-			case "Unserialize", "Validate", "Serialize", "ValidateCompatibility":
-			default:
+			_, opRecv, _, isOp := opCallStatic(&call.Call)
+			if !isOp {
 				continue
 			}
-			if ld, ok := call.Call.Value.(*ssa.UnOp); ok && ld.Op == token.MUL {
+			if ci, ok := opRecv.(*ssa.ChangeInterface); ok {
+				opRecv = ci.X
+			}
+			if ld, ok := opRecv.(*ssa.UnOp); ok && ld.Op == token.MUL {
 				if fa, ok := ld.X.(*ssa.FieldAddr); ok && fa.X == ssa.Value(fn.Params[0]) && fieldName(fa.X.Type(), fa.Field) == "TypeValue" {
 					return true
 				}
